@@ -463,6 +463,7 @@ func (c *Client) completeCommand(cmd command, err error) {
 
 	// Ensure the command is not blocked waiting on continuation requests
 	c.mutex.Lock()
+	cmd.base().completed = true
 	var filtered []continuationRequest
 	for _, contReq := range c.contReqs {
 		if contReq.cmd != cmd.base() {
@@ -532,11 +533,22 @@ func (c *Client) registerContReq(cmd command) *imapwire.ContinuationRequest {
 	contReq := imapwire.NewContinuationRequest()
 
 	c.mutex.Lock()
-	c.contReqs = append(c.contReqs, continuationRequest{
-		ContinuationRequest: contReq,
-		cmd:                 cmd.base(),
-	})
+	completed := cmd.base().completed
+	if !completed {
+		c.contReqs = append(c.contReqs, continuationRequest{
+			ContinuationRequest: contReq,
+			cmd:                 cmd.base(),
+		})
+	}
 	c.mutex.Unlock()
+
+	if completed {
+		// The server has already answered the command (e.g. it refused one
+		// of its literals): this request will never be answered, and leaving
+		// it in the queue would steal the continuation request of a later
+		// command
+		contReq.Cancel(fmt.Errorf("imapclient: command already completed"))
+	}
 
 	return contReq
 }
@@ -1178,6 +1190,8 @@ type Command struct {
 	tag  string
 	done chan error
 	err  error
+
+	completed bool // protected by Client.mutex
 }
 
 func (cmd *Command) base() *Command {
